@@ -2171,6 +2171,9 @@ def _handle_assignment_ast(
 
     nodes: List[object] = []
     is_global_scope = scope == "setup" and depth == 0
+    # A name first bound in the body of ``while True:`` lives on between loop() passes,
+    # exactly like a sketch-level one: it is declared at file scope as well.
+    in_main_loop = scope == "loop" and depth == 1
 
     if isinstance(stmt, ast.AugAssign):
         if not isinstance(target, ast.Name):
@@ -2272,13 +2275,16 @@ def _handle_assignment_ast(
                 if not is_const or expr_uses_names:
                     init_expr = _default_value_for_type(cpp_type)
                     needs_runtime_assign = True
+            elif in_main_loop:
+                init_expr = _default_value_for_type(cpp_type)
+                needs_runtime_assign = True
             decl = VarDecl(
                 name=target.id,
                 c_type=cpp_type,
                 expr=init_expr,
-                global_scope=is_global_scope,
+                global_scope=is_global_scope or in_main_loop,
             )
-            if is_global_scope:
+            if decl.global_scope:
                 globals_list.append(decl)
                 if needs_runtime_assign:
                     if assign_as_expr_stmt:
@@ -2393,9 +2399,9 @@ def _handle_assignment_ast(
             if name not in declared:
                 declared.add(name)
                 cpp_type = _cpp_type(inferred_types[idx])
-                if is_global_scope:
+                if is_global_scope or in_main_loop:
                     # a sketch-level variable: declare it at file scope like any other
-                    # first assignment, not as a local of setup()
+                    # first assignment, not as a local of setup() / loop()
                     globals_list.append(
                         VarDecl(
                             name=name,
@@ -2499,7 +2505,7 @@ def _make_promotion_decls(
             name=name,
             c_type=cpp_type,
             expr=_default_value_for_type(cpp_type),
-            global_scope=scope == "setup" and depth == 0,
+            global_scope=(scope == "setup" and depth == 0) or (scope == "loop" and depth == 1),
             placeholder=True,
         )
         if decl.global_scope:
